@@ -69,6 +69,12 @@ class Report:
         self.solver_s = {}
         self.dropped = ''        # what extraction drops
 
+    def listed(self, oid):
+        """the known-findings entry for this case id (contracts replay its witness first)"""
+        if not hasattr(self, '_listed'):
+            self._listed = {f['id']: f for f in load_known().get('findings', []) if f['property'] == self.prop}
+        return self._listed.get(oid)
+
     # -- recording
     def add(self, ob):
         self.obs.append(ob)
@@ -143,6 +149,8 @@ class Report:
             print(l)
         rc = 0
         os.makedirs(os.path.join(OUT, 'replays', self.prop), exist_ok=True)
+        for old in os.listdir(os.path.join(OUT, 'replays', self.prop)):
+            os.unlink(os.path.join(OUT, 'replays', self.prop, old))
         for kind, v in violations:
             rc = 1
             rp = os.path.join(OUT, 'replays', self.prop, _safe(v.id) + '.json')
@@ -153,8 +161,8 @@ class Report:
                 tail = ' no-failing-input-found'
             print(f'VIOLATION property={self.prop} replay={rp}{tail}')
             print(f'  obligation {v.id}: {(getattr(v, "detail", None) or getattr(v, "observed", ""))!s:.300}')
-        if rc == 0 and undec:
-            rc = 2
+        if undec:
+            rc = rc or 2
             for o in undec[:20]:
                 print(f'UNDECIDED property={self.prop} {o.id}: {o.detail!s:.300}')
         self._write_evidence(violations, kf_lines, stale, undec)
